@@ -130,6 +130,7 @@ type Run struct {
 	bytesOfBig map[int][]*Term
 	nonNeg   map[int]bool
 	wk       *Worker
+	pbMsgs   []Value
 	zeroCache map[types.Type]Value
 }
 
